@@ -91,6 +91,8 @@ def parse_block(lines):
         head, _, rest = l.partition(' ')
         if head == 'hyp':
             obs['hyp'] = dict((kv.split('=')[0], int(kv.split('=')[1])) for kv in rest.split())
+        elif head == 'steps':
+            obs['steps'] = dict((kv.split('=')[0], int(kv.split('=')[1])) for kv in rest.split())
         elif head == 's':
             d = dict(kv.split('=', 1) for kv in rest.split())
             sid = int(d['id'])
